@@ -15,6 +15,7 @@ package props
 // containsLeaf (acc-contains) on the same questions.
 
 import (
+	"encoding/json"
 	"fmt"
 	"reflect"
 
@@ -449,7 +450,11 @@ func (r *c04Run) typed() {
 			res.Eval(fmt.Sprintf("typed %d %s %s", round, kind, path), true)
 			res.Count("typed:" + kind)
 			if got && !want {
-				res.Violate(fw.Violation{Key: "c04-accepts-mutant:field:" + kind + path, What: fmt.Sprintf("%s element with altered %s is accepted as a member", kind, path),
+				key := "c04-accepts-mutant:field:" + kind + path
+				if len(path) > 0 && path[0] == '(' {
+					key = "c04-accepts-wrong-status:" + kind + path
+				}
+				res.Violate(fw.Violation{Key: key, What: fmt.Sprintf("%s element with altered %s is accepted as a member", kind, path),
 					Replay: map[string]any{"kind": "typed", "seed": c.Seed, "round": round, "element": kind, "field": path}, Expected: "rejected", Observed: "accepted"})
 			}
 			if !got && want {
@@ -520,9 +525,54 @@ func (r *c04Run) typed() {
 	}
 }
 
+// replay re-runs the full sweep on one stored small scenario (violations found in
+// random histories or typed rounds are reproduced by re-running with the stored seed).
+func (r *c04Run) replay() {
+	c := r.c
+	b, err := readFile(c.Replay)
+	if err != nil {
+		c.Res.Note("cannot read replay: %v", err)
+		return
+	}
+	var v struct {
+		Seed   int64       `json:"seed"`
+		Replay c05Scenario `json:"replay"`
+	}
+	if json.Unmarshal(b, &v) != nil || v.Replay.Kind != "scenario" {
+		c.Res.Note("replay file is not a small scenario; re-run with VERIF_SEED=%d to reproduce", v.Seed)
+		r.small()
+		r.histories()
+		r.typed()
+		return
+	}
+	sc := v.Replay
+	base, err := c05Build("c04", sc.N)
+	if err != nil {
+		c.Res.Violate(fw.Violation{Key: "c04-panic:build", What: err.Error(), Replay: sc})
+		return
+	}
+	st := &c05Base{acc: base.acc, leaves: append([]accLeaf(nil), base.leaves...), proofs: base.proofs}
+	undo, _, _, ok := c05Apply(c.Res, st, sc.block(base), nil, sc)
+	if !ok {
+		return
+	}
+	for j := range st.leaves {
+		r.sweep(st, j, true, sc)
+	}
+	child := &c05Base{acc: st.acc, leaves: append([]accLeaf(nil), st.leaves...), proofs: st.proofs}
+	if _, _, ok := c05Revert(c.Res, st, undo, nil, sc); ok {
+		r.reverted(st, child, undo, sc)
+	}
+}
+
 func runC04(c *fw.Ctx) {
 	c.Res.Rule = "membership questions put to the real containsLeaf / contains*Element on accumulator states reached by applyBlock/revertBlock: each genuine live leaf (expect accept) and each single mutation of it — element-hash bit, leaf index, spent flag, each proof hash, proof length +-1, another leaf's proof or position, never-created element, leaf of a reverted branch (expect reject); typed elements of all six kinds with every field altered by reflection. A case is one membership question; all are non-trivial; distinct by (kind,index,leaf,proof)."
 	r := &c04Run{c: c}
+	if c.Replay != "" {
+		r.replay()
+		c.Compare(r.ops, r.outs)
+		return
+	}
 	r.small()
 	r.histories()
 	r.typed()
